@@ -770,14 +770,15 @@ package core
 
 // ---- C02: term index and ids ------------------------------------------------------------------
 //@ define hasEntry(ti, t, j) = has(ti.Index, t) && has(ti.Index[t], j)
-// data-structure invariant of TermIndex (established by NewTermIndex / Add): the map and its id sets are allocated
+// data-structure invariant of TermIndex (established by NewTermIndex / Add): the map and its id sets are allocated,
+// and distinct terms own distinct id sets
 //@ func (*TermIndex).Add
-//@   assume-entry ti.Index != nil && forall(t, string, has(ti.Index, t) ==> ti.Index[t] != nil)
+//@   assume-entry ti.Index != nil && forall(t, string, has(ti.Index, t) ==> ti.Index[t] != nil) && forall(t, string, forall(u, string, t != u && has(ti.Index, t) && has(ti.Index, u) ==> ti.Index[t] != ti.Index[u]))
 //@   ensures[C02.ti_add_adds]            hasEntry(ti, term, id)
 //@   ensures[C02.ti_add_keeps_the_rest]  forall(t, string, forall(j, string, old(hasEntry(ti, t, j)) ==> hasEntry(ti, t, j)))
 //@   ensures[C02.ti_add_adds_only_that]  forall(t, string, forall(j, string, hasEntry(ti, t, j) && !(t == term && j == id) ==> old(hasEntry(ti, t, j))))
 //@ func (*TermIndex).Rem
-//@   assume-entry ti.Index != nil && forall(t, string, has(ti.Index, t) ==> ti.Index[t] != nil)
+//@   assume-entry ti.Index != nil && forall(t, string, has(ti.Index, t) ==> ti.Index[t] != nil) && forall(t, string, forall(u, string, t != u && has(ti.Index, t) && has(ti.Index, u) ==> ti.Index[t] != ti.Index[u]))
 //@   ensures[C02.ti_rem_removes]            !hasEntry(ti, term, id)
 //@   ensures[C02.ti_rem_keeps_the_rest]     forall(t, string, forall(j, string, old(hasEntry(ti, t, j)) && !(t == term && j == id) ==> hasEntry(ti, t, j)))
 //@   ensures[C02.ti_rem_adds_nothing]       forall(t, string, forall(j, string, hasEntry(ti, t, j) ==> old(hasEntry(ti, t, j))))
